@@ -21,7 +21,7 @@ func Preamble(m Mode) string {
 	fmt.Fprintf(&b, "(declare-datatypes ((Ptr 0)) (((mkptr (p.obj Int) (p.off %s)))))\n", ix)
 	fmt.Fprintf(&b, "(declare-datatypes ((Slice 0)) (((mksl (sl.ptr Ptr) (sl.len %s) (sl.cap %s)))))\n", ix, ix)
 	b.WriteString("(declare-datatypes ((Iface 0)) (((mkif (if.dyn Int) (if.val Ptr)))))\n")
-	b.WriteString("(declare-sort Str 0)\n(define-sort Func () Int)\n(define-sort GInt () Int)\n(define-sort GOwn () Int)\n(define-sort GLock () Int)\n")
+	b.WriteString("(declare-sort Str 0)\n(define-sort Func () Int)\n(define-sort GInt () Int)\n(define-sort GOwn () Int)\n(define-sort GLock () Int)\n(define-sort LInt () Int)\n(define-sort LBool () Bool)\n(define-sort LPtr () Ptr)\n")
 	fmt.Fprintf(&b, "(declare-fun slen (Str) %s)\n(declare-fun sat (Str %s) %s)\n(declare-fun sconcat (Str Str) Str)\n", ix, ix, ix)
 	if !m.BV {
 		b.WriteString("(assert (forall ((a Str) (b Str)) (! (= (slen (sconcat a b)) (+ (slen a) (slen b))) :pattern ((sconcat a b)))))\n")
@@ -262,6 +262,9 @@ func Discharge(rs []*FuncResult, dir string, timeout time.Duration, workers int,
 
 func decide(o *Obl, file string, timeout time.Duration, stats *SolveStats) {
 	ctx := context.Background()
+	if o.Long {
+		timeout *= 4
+	}
 	record := func(so solveOut) {
 		stats.mu.Lock()
 		stats.Queries++
